@@ -333,6 +333,86 @@ func runC05(s *kit.Session, c c05Case) *kit.Failure {
 	return nil
 }
 
+
+// c05Shapes lists the principal shapes of the bounded-exhaustive enumeration:
+// keys 0..2 are the ones principals may hold, key 3 is never trusted.
+func c05Shapes() []c05Prin {
+	var out []c05Prin
+	for k := 0; k < 3; k++ {
+		out = append(out, c05Prin{Kind: "v02key", Keys: []int{k}})
+	}
+	for k := 0; k < 3; k++ {
+		out = append(out, c05Prin{Kind: "v01key", Keys: []int{k}})
+	}
+	for k := 0; k < 3; k++ {
+		out = append(out, c05Prin{Kind: "person", Keys: []int{k}})
+	}
+	for _, pr := range [][]int{{0, 1}, {0, 2}, {1, 2}} {
+		out = append(out, c05Prin{Kind: "person", Keys: pr})
+	}
+	return out
+}
+
+// c05EnumRules lists every rule over at most maxP principals drawn from
+// c05Shapes (principal ids distinct; order matters because the verifier
+// consults principals in order).
+func c05EnumRules(maxP int) [][]c05Prin {
+	shapes := c05Shapes()
+	out := [][]c05Prin{{}}
+	var rec func(cur []c05Prin)
+	rec = func(cur []c05Prin) {
+		if len(cur) == maxP {
+			return
+		}
+		for _, sh := range shapes {
+			p := sh
+			if p.Kind == "person" {
+				p.ID = fmt.Sprintf("person-%d", len(cur))
+			}
+			dup := false
+			for _, q := range cur {
+				if q.pid() == p.pid() {
+					dup = true
+				}
+			}
+			if dup {
+				continue
+			}
+			next := append(append([]c05Prin{}, cur...), p)
+			out = append(out, next)
+			rec(next)
+		}
+	}
+	rec(nil)
+	return out
+}
+
+// c05EnumCase maps an index to a case: rule x threshold 0..4 x Git signer
+// {none, unsigned, key 0..3} x envelope {absent, every subset of keys 0..3}.
+func c05EnumCase(rules [][]c05Prin, i int) (c05Case, bool) {
+	const nThr, nGit, nEnv = 5, 6, 17
+	per := nThr * nGit * nEnv
+	if i >= len(rules)*per {
+		return c05Case{}, false
+	}
+	r := rules[i/per]
+	j := i % per
+	c := c05Case{Prins: r, Threshold: j % nThr}
+	j /= nThr
+	c.Git = j%nGit - 2
+	j /= nGit
+	if j == 16 {
+		c.NoEnv = true
+	} else {
+		for k := 0; k < 4; k++ {
+			if j&(1<<k) != 0 {
+				c.Sigs = append(c.Sigs, c05Sig{Key: k, KeyID: "own"})
+			}
+		}
+	}
+	return c, true
+}
+
 func TestC05(t *testing.T) {
 	s := kit.Open(t, "C05")
 	run := func(c c05Case) *kit.Failure { return runC05(s, c) }
@@ -340,6 +420,18 @@ func TestC05(t *testing.T) {
 		kit.DoReplay(s, t, rf, run)
 		return
 	}
-	s.SetRule("rapid: rules over 0-4 principals (v0.1 keys, v0.2 keys, persons with 1-2 keys; keys shared between principals in a third of the cases), thresholds 0..5, Git object {absent, unsigned, signed by a trusted or an untrusted key}, envelope {absent, 0-6 signatures by any multiset of trusted/untrusted keys, with own/empty/foreign keyid fields, some lifted from another payload}. Oracle: maximum bipartite matching principal-key over validly signing keys; soundness always, exactness when principals share no keys. Non-trivial: >=2 principals and (shared key | person whose two keys both signed | duplicate or lifted signature | Git and envelope signature by the same principal)")
+	s.SetRule("rapid: rules over 0-4 principals (v0.1 keys, v0.2 keys, persons with 1-2 keys; keys shared between principals in a third of the cases), thresholds 0..5, Git object {absent, unsigned, signed by a trusted or an untrusted key}, envelope {absent, 0-6 signatures by any multiset of trusted/untrusted keys, with own/empty/foreign keyid fields, some lifted from another payload}. Oracle: maximum bipartite matching principal-key over validly signing keys; soundness always, exactness when principals share no keys. Plus a bounded-exhaustive enumeration (see enumeration_bound). Non-trivial: >=2 principals and (shared key | person whose two keys both signed | duplicate or lifted signature | Git and envelope signature by the same principal)")
 	kit.Campaign(s, t, "verify", "verify", s.Budget(40_000, 1_000_000), genC05, run)
+	// bounded-exhaustive part of the quantifier: every rule over <=2 (quick) /
+	// <=3 (thorough) principals x every threshold x every Git signer x every
+	// subset of envelope signers
+	maxP := 2
+	if s.Thorough() {
+		maxP = 3
+	}
+	rules := c05EnumRules(maxP)
+	ok := kit.Enumerate(s, t, "enum", "verify", func(i int) (c05Case, bool) { return c05EnumCase(rules, i) }, run)
+	s.SetExhaustive(ok)
+	s.SetExtra("enumerated_rules", fmt.Sprintf("%d rules x 510 = %d cases", len(rules), len(rules)*510))
+	s.SetExtra("enumeration_bound", fmt.Sprintf("all ordered rules over <=%d principals of 12 shapes (v0.1 key, v0.2 key, one-key person, two-key person over keys 0..2) x thresholds 0..4 x Git object {absent, unsigned, signed by key 0..3} x envelope {absent, every subset of keys 0..3 as signers}; key 3 is never trusted", maxP))
 }
